@@ -25,12 +25,16 @@ class Module:
         self.inlined = inline_new_helpers(self.tree, name, known_functions())
         from .normalize import normalize_module
         self.substituted = normalize_module(self.tree) if os.environ.get('VERIF_NO_NORMALIZE') != '1' else 0
+        # (context and operator nodes are singletons shared by every tree of the process: they never get a parent)
+        shared = (ast.expr_context, ast.operator, ast.boolop, ast.unaryop, ast.cmpop)
         for node in ast.walk(self.tree):
             for child in ast.iter_child_nodes(node):
-                child._parent = node
+                if not isinstance(child, shared):
+                    child._parent = node
         self.tree._parent = None
         for node in ast.walk(self.tree):
-            node._mod = self
+            if not isinstance(node, shared):
+                node._mod = self
 
 
 class Tree:
